@@ -279,11 +279,11 @@ func VxH_C01_step(op int) {
 }
 
 
-// VxH_C01_hist2: a history of two calls with symbolic method selectors and a
+// VxH_C01_hist2: a history of two calls (every pair of a storing first call and any second call) and a
 // symbolic clock advance in between, from an EMPTY cache built by the real
 // constructor path - no coupling relation is assumed, every result is compared
 // with the reference TTL map.
-func VxH_C01_hist2(first int) {
+func VxH_C01_hist2(first, second int) {
 	now := xsync.VxI64("now")
 	xsync.VxAssume(now >= 0 && now < 1<<61)
 	xsync.VxClockSet(now)
@@ -300,7 +300,7 @@ func VxH_C01_hist2(first int) {
 	now2 := xsync.VxI64("now2")
 	xsync.VxAssume(now2 >= now && now2 < 1<<62)
 	xsync.VxClockSet(now2)
-	op2 := xsync.VxChoice("op2", 15)
+	op2 := second
 	k := xsync.VxStr("k")
 	xsync.VxReach("first call done")
 	vxC01Apply(c, r, op2, k1, k2, k, vxVal("nv"), time.Duration(xsync.VxI64("d")), xsync.VxBool("del"), now2)
